@@ -491,19 +491,33 @@ pub fn run_geom(args: &Args) {
     let start = rng.below(64);
     for kind in 0..2u8 {
         let nsq = if kind == 0 { rook_squares } else { bishop_squares };
-        for i in 0..nsq.min(64) {
+        let sample = args.num("slider-sample", 200);
+        for i in 0..64 {
             let s = Square::index(((start + i * 5) % 64) as usize);
             let mask = if kind == 0 { get_rook_relevant_blockers_spec(s) } else { get_bishop_relevant_blockers_spec(s) };
             let mut cases: Vec<String> = vec![];
             let rnd = BitBoard(rng.next());
-            // own carry-rippler on the raw word (the library's subset iterator is itself under test in C18)
             let mut subs: Vec<BitBoard> = vec![];
-            let mut w = 0u64;
-            loop {
-                subs.push(BitBoard(w));
-                w = w.wrapping_sub(mask.0) & mask.0;
-                if w == 0 {
-                    break;
+            if i < nsq.min(64) {
+                // every subset: own carry-rippler on the raw word (the library's subset iterator is itself under test in C18)
+                let mut w = 0u64;
+                loop {
+                    subs.push(BitBoard(w));
+                    w = w.wrapping_sub(mask.0) & mask.0;
+                    if w == 0 {
+                        break;
+                    }
+                }
+            } else {
+                // the remaining squares: the empty and the full relevant set, every single blocker, random subsets
+                subs.push(BitBoard::EMPTY);
+                subs.push(mask);
+                for b in mask {
+                    subs.push(b.bitboard());
+                    subs.push(mask & !b.bitboard());
+                }
+                for _ in 0..sample {
+                    subs.push(BitBoard(rng.next() & mask.0));
                 }
             }
             for sub in subs {
